@@ -556,12 +556,51 @@ def _parents(n):
         p = getattr(p, "_parent", None)
 
 
+def check_queue_keys(ck, repo, g):
+    """C07.b (swap queues): a point that wants to go from `cur` to `dest` and finds no room looks for
+    a partner among the points queued for the opposite move, (dest, cur), and otherwise queues
+    itself under its own move, (cur, dest).  With the same key on both sides the partner comes
+    from the point's own cluster: no point changes cluster, yet the move is booked, and sizes
+    drift from the counters."""
+    ex = expander(repo)
+    nodes = list(own_nodes(g.node))
+    tables = {s_.targets[0].id for s_ in nodes if isinstance(s_, ast.Assign) and isinstance(s_.targets[0], ast.Name) and isinstance(s_.value, ast.Dict) and not s_.value.keys}
+    gets, puts = [], []
+    for c in nodes:
+        if isinstance(c, ast.Call) and isinstance(c.func, ast.Attribute) and c.func.attr == "get" and isinstance(c.func.value, ast.Name) and c.func.value.id in tables and c.args:
+            gets.append((c, c.args[0]))
+        if isinstance(c, ast.Subscript) and isinstance(c.value, ast.Name) and c.value.id in tables:
+            par = getattr(c, "_parent", None)
+            if isinstance(c.ctx, ast.Store) or (isinstance(par, ast.Call) and src_of(par.func).endswith("insort") and par.args and par.args[0] is c):
+                puts.append((c, c.slice))
+            elif isinstance(c.ctx, ast.Load) and not (isinstance(par, ast.Call) and src_of(par.func).endswith("insort")):
+                gets.append((c, c.slice))
+
+    def key(e, at):
+        with ex.lenient():
+            t = ex.text(e, g, stmt_of(at))
+        try:
+            v = ast.parse(t, mode="eval").body
+        except SyntaxError:
+            return None
+        return tuple(src_of(x) for x in v.elts) if isinstance(v, ast.Tuple) and len(v.elts) == 2 else None
+
+    gk = {key(e, c) for c, e in gets}
+    pk = {key(e, c) for c, e in puts}
+    if not gets or not puts or None in gk or None in pk or len(gk) != 1 or len(pk) != 1:
+        ck.unknown("C07.b", g, "transfer[(dest, cur)] read / transfer[(cur, dest)] written", f"the swap queues are not one table read under one pair and written under one pair (reads {sorted(map(str, gk))}, writes {sorted(map(str, pk))})")
+        return
+    (a,), (b,) = gk, pk
+    ck.verdict(a == (b[1], b[0]) and a[0] != a[1], "C07.b", g, gets[0][0], f"partners are taken from the queue {a}, the opposite of the point's own queue {b}", f"the swap partner is looked up under {a} and the point queues itself under {b}: these are not opposite moves, so the 'swap' exchanges labels with a point that does not want the reverse move (or of the same cluster) and cluster sizes drift from the counters")
+
+
 def run(ck):
     repo = ck.repo
     for k, v in RULES.items():
         ck.rule(k, v)
     check_a(ck, repo)
     check_b(ck, repo)
+    check_queue_keys(ck, repo, repo.func(MOD, "_constraint_association_gain"))
     check_c(ck, repo)
     check_d(ck, repo)
     ck.require_count("C07.a", 3, "init, two assignments, loop, skip")
